@@ -1603,7 +1603,89 @@ func (fc *FC) load(u *ssa.UnOp) *RF {
 			return s.MakeFn("deref", s.MakeFn("after:"+x.W.InstrPos(muts[len(muts)-1]), ptr))
 		}
 	}
+	// a parameter spilled to a cell that nothing ever writes again (its address
+	// goes only into loads, possibly through a phi): the load is the parameter
+	if at := ptr.SingleAtom(); at != nil && at.Name == "ref" && len(at.Args) == 1 && spillOnly(u.X) {
+		return at.Args[0]
+	}
 	return s.MakeFn("deref", ptr)
+}
+
+// loadOnly: every use of the address v is a load (directly or of a field).
+func loadOnly(v ssa.Value) bool {
+	refs := v.Referrers()
+	if refs == nil {
+		return false
+	}
+	for _, r := range *refs {
+		switch r := r.(type) {
+		case *ssa.UnOp, *ssa.DebugRef:
+		case *ssa.FieldAddr:
+			if !loadOnly(r) {
+				return false
+			}
+		default:
+			return false
+		}
+	}
+	return true
+}
+
+// spillOnly: v is a cell holding a parameter (one store, of a parameter) whose
+// address is otherwise only loaded from, or a phi — itself only loaded from —
+// whose parameter-holding cells are all such cells.
+func spillOnly(v ssa.Value) bool {
+	cell := func(al *ssa.Alloc, via *ssa.Phi) bool {
+		stores := 0
+		for _, r := range *al.Referrers() {
+			switch r := r.(type) {
+			case *ssa.Store:
+				if _, isParam := r.Val.(*ssa.Parameter); r.Addr != al || !isParam {
+					return false
+				}
+				stores++
+			case *ssa.UnOp, *ssa.DebugRef:
+			case *ssa.FieldAddr:
+				if !loadOnly(r) {
+					return false
+				}
+			case *ssa.Phi:
+				if r != via {
+					return false
+				}
+			default:
+				return false
+			}
+		}
+		return stores == 1
+	}
+	switch v := v.(type) {
+	case *ssa.Alloc:
+		return cell(v, nil)
+	case *ssa.Phi:
+		if !loadOnly(v) {
+			return false
+		}
+		for _, e := range v.Edges {
+			al, ok := e.(*ssa.Alloc)
+			if !ok {
+				continue // cannot be such a cell: their addresses go nowhere but here
+			}
+			one := false
+			for _, r := range *al.Referrers() {
+				if st, ok := r.(*ssa.Store); ok && st.Addr == al {
+					if _, isParam := st.Val.(*ssa.Parameter); isParam {
+						one = true
+					}
+				}
+			}
+			if one && !cell(al, v) {
+				return false
+			}
+		}
+		return true
+	}
+	return false
 }
 
 // freeVar resolves a load of a captured variable through the creating function.
